@@ -217,6 +217,9 @@ func (k *kCluster) step() {
 			s.exists, s.headless, s.ports = true, tp.Bool(1, 4, "headless"), [][]int32{{80}, {80, 81}}[tp.Choose(2, "ports")]
 			s.hidden = tp.Bool(1, 6, "svchidden")
 			k.emit("svc", "create", k.svcObj(s), fmt.Sprintf("create service %s headless=%v ports=%v exported to nobody=%v", name, s.headless, s.ports, s.hidden))
+		} else if s.hidden && tp.Bool(1, 2, "svcunhide") {
+			s.hidden = false
+			k.emit("svc", "update", k.svcObj(s), fmt.Sprintf("update service %s exported to nobody=%v", name, s.hidden))
 		} else if tp.Bool(1, 2, "svcdel") {
 			s.exists = false
 			k.emit("svc", "delete", k.svcObj(s), "delete service "+name)
